@@ -345,7 +345,7 @@ class Judge:
 
     def _one(self, inp, k, count, first):
         out = os.path.join(self.work, "out%d.ndjson" % k)
-        r = vlib.tlc("DumpInv", "DumpInv.cfg", env={"DUMPS": inp, "OUT": out, "JAVA_TOOL_OPTIONS": "-Xss32m"}, workers=1, timeout=1800, xmx="3g")
+        r = vlib.tlc("DumpInv", "DumpInv.cfg", env={"DUMPS": inp, "OUT": out, "JAVA_TOOL_OPTIONS": "-Xss32m -XX:ParallelGCThreads=2"}, workers=1, timeout=1800, xmx="3g")
         if not r.ok or '"DUMPS", %d,' % count not in r.out:
             raise vlib.InfraError("model failure in DumpInv.tla (rc=%s) first row %s\n%s" % (r.rc, first, r.out[-2500:]))
         res = vlib.read_ndjson(out)
